@@ -358,8 +358,9 @@ impl EigenTrustEngine {
         }
 
         // Apply time decay
-        let last_update = self.last_update.read().await;
-        let elapsed = last_update.elapsed().as_secs() as f64 / 3600.0; // hours
+        // (the read guard must not outlive this statement: the timestamp is
+        // written again below and tokio's RwLock is not re-entrant)
+        let elapsed = self.last_update.read().await.elapsed().as_secs() as f64 / 3600.0; // hours
 
         for (_, trust) in trust_vector.iter_mut() {
             *trust *= self.decay_rate.powf(elapsed);
